@@ -52,7 +52,8 @@ static int16_t g_n;
 #define SPILL (OLD_TOP(g_a) >> ((DIGIT_BIT - NBIT) % DIGIT_BIT))
 
 #define POSTS(P) \
-    P(ret_is_ok_or_mem, RET == PSTM_OKAY || RET == PS_MEM_FAIL) \
+    P(ret_is_ok_or_error_code, RET == PSTM_OKAY || RET == PS_MEM_FAIL || RET == PS_LIMIT_FAIL) \
+    P(limit_error_only_when_the_result_cannot_fit, IMPLIES(RET == PS_LIMIT_FAIL, OLD(g_a, used) + NDIGS + 1 > PSTM_MAX_SIZE)) /* the result would need more than PSTM_MAX_SIZE digits (fixes 414fac1, 4a77cad report this instead of dropping the carry) */ \
     P(ok_result_wf, IMPLIES(RET == PSTM_OKAY, WF(g_c))) \
     P(ok_no_stale_high_digits, IMPLIES(RET == PSTM_OKAY, ZH(g_c))) \
     P(ok_length_without_spill, IMPLIES(RET == PSTM_OKAY && OLD(g_a, used) != 0 && (NBIT == 0 || SPILL == 0), g_c.used == OLD(g_a, used) + NDIGS)) \
